@@ -102,7 +102,7 @@ TCP_DESYNC = {'lost', 'extra-after-desync', 'exc:InvalidMessageReceivedException
 EXCUSES = {
     'socket-split-frame': TCP_DESYNC,
     'socket-short-header': TCP_DESYNC,
-    'rtu-split-frame': {'lost', 'exc:IndexError', 'exc:KeyError', 'exc:error', 'exc:ModbusIOException', 'justified-misaligned-delivery'},
+    'rtu-split-frame': {'lost', 'exc:ModbusIOException', 'justified-misaligned-delivery'},
     'rtu-one-frame-per-call': {'lost'},
     'binary-split-frame': {'lost'},
     'binary-pipelined-frame-skipped': {'lost'},
